@@ -162,6 +162,8 @@ class Check:
         _, plan = gen.gen_env(rng, world)
         return {"world": world, "cwd": cwd, "sp": sp, "follow": follow, "mode": rng.choice(["bfs", "dfs"]), "window": window, "plan": plan,
                 "symword": rng.choice(["symlinks", "sym"]),
+                # sometimes an attribute column rides along (its per-entry cache must not leak into the walk's notion of identity)
+                "extra_col": rng.choice(["", "", "size", "mode", "is_symlink", "is_dir"]),
                 # sometimes the sibling tree is a second search root of the same query: "once per query" spans roots
                 "second_root": follow and rng.random() < 0.25, "mode2": rng.choice(["bfs", "dfs"])}
 
@@ -228,7 +230,7 @@ class Check:
             if case["follow"]:
                 opts += " " + case.get("symword", "symlinks")
             roots_abs = [root_abs]
-            q = "select path from %s%s" % (rs, opts)
+            q = "select path%s from %s%s" % ((", " + case["extra_col"]) if case.get("extra_col") else "", rs, opts)
             if case.get("second_root"):
                 sib_abs = os.path.join(sb.root, SIB)
                 rs2 = sib_abs if sp in ("abs", "vialink_abs") else os.path.relpath(sib_abs, cwd_abs)
@@ -245,7 +247,7 @@ class Check:
                 viols.append(Violation(PROP, "C18.term", ["C18.term", res.sim or ("signal" if res.signal is not None else "status_%s" % res.status), tag],
                                        {"query": q, "cwd": cwd, "outcome": res.summary(), "last_events": res.log[-4:]}))
                 return viols
-            rows = [r[0].decode("utf-8", "replace") for r in res.rows(1)]
+            rows = [r[0].decode("utf-8", "replace") for r in res.rows(2 if case.get("extra_col") else 1)]
             # reachability model on the materialised world
             real_root = os.path.realpath(root_abs)
             reach = [os.path.realpath(r) for r in roots_abs]
